@@ -28,7 +28,8 @@ theorem cap_eq_capSpec (base mx g : Rat) (attempt : Nat) (hb : 0 ≤ base) (hg :
     cap base mx g attempt = min mx (base * g ^ attempt) :=
   min_growCapped mx g hg attempt base hb
 
-example : (0 : Rat) ≤ 1 / 4 ∧ (1 : Rat) ≤ 3 / 2 := by constructor <;> norm_num
+-- non-vacuity: the hypotheses hold at a concrete instance
+example := cap_eq_capSpec (1 / 4) 30 (3 / 2) 5 (by norm_num) (by norm_num)
 
 theorem cap_le_max (base mx g : Rat) (attempt : Nat) : cap base mx g attempt ≤ mx :=
   min_le_left _ _
@@ -39,12 +40,18 @@ theorem cap_nonneg (base mx g : Rat) (attempt : Nat) (hb : 0 ≤ base) (hm : bas
   have := one_le_pow_of_one_le g hg attempt
   exact le_min (le_trans hb hm) (by nlinarith)
 
+-- non-vacuity: the hypotheses hold at a concrete instance
+example := cap_nonneg (1 / 4) 30 2 1024 (by norm_num) (by norm_num) (by norm_num)
+
 /-- The cap never drops below `base_s` (so the delay is at least `base_s / 2`). -/
 theorem cap_ge_base (base mx g : Rat) (attempt : Nat) (hb : 0 ≤ base) (hm : base ≤ mx)
     (hg : 1 ≤ g) : base ≤ cap base mx g attempt := by
   rw [cap_eq_capSpec base mx g attempt hb hg]
   have := one_le_pow_of_one_le g hg attempt
   exact le_min hm (by nlinarith)
+
+-- non-vacuity: the hypotheses hold at a concrete instance
+example := cap_ge_base (1 / 4) 30 (3 / 2) 1751 (by norm_num) (by norm_num) (by norm_num)
 
 /-- The cap is non-decreasing in the attempt number. -/
 theorem cap_mono (base mx g : Rat) (a : Nat) (hb : 0 ≤ base) (hg : 1 ≤ g) :
@@ -55,8 +62,8 @@ theorem cap_mono (base mx g : Rat) (a : Nat) (hb : 0 ≤ base) (hg : 1 ≤ g) :
   rw [pow_succ]
   nlinarith [mul_nonneg hb (le_trans zero_le_one h1)]
 
-example : (0 : Rat) ≤ 1 / 4 ∧ (1 / 4 : Rat) ≤ 30 ∧ (1 : Rat) ≤ 2 := by
-  refine ⟨?_, ?_, ?_⟩ <;> norm_num
+-- non-vacuity: the hypotheses hold at a concrete instance
+example := cap_mono (1 / 4) 30 2 6 (by norm_num) (by norm_num)
 
 /-! ## decorrelated_jitter -/
 
@@ -84,10 +91,9 @@ theorem decorrelated_in_range (base mx : Rat) (prev : Option Rat) (u : Rat)
   exact ⟨le_min (le_trans hb hm) (le_trans hmin0 hlo), min_le_left _ _, le_min hminm hlo,
     min_le_min_left _ hhi⟩
 
-example : (0 : Rat) ≤ 1 / 4 ∧ (1 / 4 : Rat) ≤ 30 ∧ (∀ p : Rat, some (7 / 2 : Rat) = some p → 0 ≤ p)
-    ∧ (0 : Rat) ≤ 1 / 3 ∧ (1 / 3 : Rat) ≤ 1 := by
-  refine ⟨by norm_num, by norm_num, ?_, by norm_num, by norm_num⟩
-  intro p h; cases h; norm_num
+-- non-vacuity: the hypotheses hold at a concrete instance
+example := decorrelated_in_range (1 / 4) 30 (some (7 / 2)) (1 / 3) (by norm_num) (by norm_num)
+  (by intro p h; cases h; norm_num : ∀ p : Rat, some (7 / 2 : Rat) = some p → 0 ≤ p) (by norm_num) (by norm_num)
 
 /-- First retry (`prev_sleep` is `None`) or a previous delay of `0.0`: the draw is from
 `[base_s, 3·base_s]`, clamped to `max_s`. -/
@@ -106,6 +112,9 @@ theorem decorrelated_first (base mx : Rat) (prev : Option Rat) (u : Rat)
   rw [max_eq_right (by linarith)] at h4
   exact ⟨h3, h4⟩
 
+-- non-vacuity: the hypotheses hold at a concrete instance
+example := decorrelated_first (1 / 4) 30 (some 0) 1 (by norm_num) (by norm_num) (Or.inr rfl) (by norm_num) (by norm_num)
+
 /-- When the previous delay is at least `base_s / 3` the result is at least `base_s`. -/
 theorem decorrelated_ge_base (base mx p u : Rat)
     (hb : 0 ≤ base) (hm : base ≤ mx) (hp : base ≤ p * 3) (hu0 : 0 ≤ u) (hu1 : u ≤ 1) :
@@ -119,6 +128,9 @@ theorem decorrelated_ge_base (base mx p u : Rat)
     simpa [prevOr] using h3
   · simp only [prevOr, if_neg h0] at h3
     rwa [min_eq_left hp] at h3
+
+-- non-vacuity: the hypotheses hold at a concrete instance
+example := decorrelated_ge_base (1 / 4) 30 (1 / 12) 0 (by norm_num) (by norm_num) (by norm_num) (by norm_num) (by norm_num)
 
 /-! ## equal_jitter and token_backoff -/
 
@@ -136,6 +148,9 @@ theorem equal_jitter_envelope (base mx : Rat) (attempt : Nat) (u : Rat)
   rw [hc]
   constructor <;> linarith
 
+-- non-vacuity: the hypotheses hold at a concrete instance
+example := equal_jitter_envelope (1 / 4) 30 1024 1 (by norm_num) (by norm_num) (by norm_num) (by norm_num)
+
 /-- `token_backoff` returns a value in `[cap/2, cap]`, `cap = min(max_s, base_s · 1.5^attempt)`. -/
 theorem token_backoff_envelope (base mx : Rat) (attempt : Nat) (u : Rat)
     (hb : 0 ≤ base) (hm : base ≤ mx) (hu0 : 0 ≤ u) (hu1 : u ≤ 1) :
@@ -150,8 +165,8 @@ theorem token_backoff_envelope (base mx : Rat) (attempt : Nat) (u : Rat)
   rw [hc]
   exact uniform_mem_of_le (c / 2) c u (by linarith) hu0 hu1
 
-example : (0 : Rat) ≤ 1 / 4 ∧ (1 / 4 : Rat) ≤ 20 ∧ (0 : Rat) ≤ 1 ∧ (1 : Rat) ≤ 1 := by
-  refine ⟨?_, ?_, ?_, ?_⟩ <;> norm_num
+-- non-vacuity: the hypotheses hold at a concrete instance
+example := token_backoff_envelope (1 / 4) 20 1751 0 (by norm_num) (by norm_num) (by norm_num) (by norm_num)
 
 /-- Both are therefore finite, non-negative, at most `max_s` and at least `base_s / 2`. -/
 theorem exponential_in_range (base mx : Rat) (attempt : Nat) (u : Rat)
@@ -167,6 +182,9 @@ theorem exponential_in_range (base mx : Rat) (attempt : Nat) (u : Rat)
   have m2 : min mx (base * 2 ^ attempt) ≤ mx := min_le_left _ _
   have m3 : min mx (base * (3 / 2) ^ attempt) ≤ mx := min_le_left _ _
   refine ⟨⟨?_, ?_⟩, ⟨?_, ?_⟩⟩ <;> linarith
+
+-- non-vacuity: the hypotheses hold at a concrete instance
+example := exponential_in_range (1 / 4) 20 3 (1 / 2) (by norm_num) (by norm_num) (by norm_num) (by norm_num)
 
 /-! ## adaptive -/
 
@@ -184,20 +202,8 @@ theorem multiplierTF_bounds (minM maxM tf : Rat) (ev : Events) (hmm : minM ≤ m
       · exact ⟨hmm, le_refl _⟩
       · exact clamp_mem _ _ _ hmm
 
-/-- The multiplier reported by an `AdaptiveStrategy` lies in `[min_multiplier, max_multiplier]`
-for every parameterisation accepted by `adaptive()`, every event history (monotone clock or
-not) and every clock reading. -/
-theorem adaptive_multiplier_bounds (p : AdaptiveParams) (events : Events) (now : Rat)
-    (hv : p.valid = true) :
-    p.minM ≤ adaptiveMultiplier p events now ∧ adaptiveMultiplier p events now ≤ p.maxM := by
-  have hmm : p.minM ≤ p.maxM := by
-    unfold AdaptiveParams.valid at hv
-    split at hv; · simp at hv
-    split at hv; · simp at hv
-    split at hv; · simp at hv
-    split at hv; · simp at hv
-    next h => exact not_lt.mp h
-  exact multiplierTF_bounds _ _ _ _ hmm
+-- non-vacuity: the hypotheses hold at a concrete instance
+example := multiplierTF_bounds 1 5 (1 / 10) [(0, false), (1, false), (2, true)] (by norm_num)
 
 /-- What `adaptive()`'s validation gives. -/
 theorem valid_iff (p : AdaptiveParams) :
@@ -220,8 +226,24 @@ theorem valid_iff (p : AdaptiveParams) :
     rw [if_neg (not_le.mpr h1), if_neg (not_not.mpr ⟨h2, h3⟩), if_neg (not_lt.mpr h4),
       if_neg (not_lt.mpr h5)]
 
-example : (⟨60, 9 / 10, 1, 5⟩ : AdaptiveParams).valid = true :=
-  (valid_iff _).mpr (by norm_num)
+/-- The multiplier reported by an `AdaptiveStrategy` lies in `[min_multiplier, max_multiplier]`
+for every parameterisation accepted by `adaptive()`, every event history (monotone clock or
+not) and every clock reading. -/
+theorem adaptive_multiplier_bounds (p : AdaptiveParams) (events : Events) (now : Rat)
+    (hv : p.valid = true) :
+    p.minM ≤ adaptiveMultiplier p events now ∧ adaptiveMultiplier p events now ≤ p.maxM := by
+  have hmm : p.minM ≤ p.maxM := by
+    unfold AdaptiveParams.valid at hv
+    split at hv; · simp at hv
+    split at hv; · simp at hv
+    split at hv; · simp at hv
+    split at hv; · simp at hv
+    next h => exact not_lt.mp h
+  exact multiplierTF_bounds _ _ _ _ hmm
+
+-- non-vacuity: the hypotheses hold at a concrete instance
+example := adaptive_multiplier_bounds (⟨60, 9 / 10, 1, 5⟩ : AdaptiveParams) [(0, false), (1, false), (2, true)] 3
+  ((valid_iff _).mpr (by norm_num) : (⟨60, 9 / 10, 1, 5⟩ : AdaptiveParams).valid = true)
 
 /-- The same for a whole life of the object: every output of `_multiplier()` along any sequence
 of `record_success` / `record_failure` / `_multiplier` / `__call__` operations is in range
@@ -253,11 +275,19 @@ theorem runOps_outputs (p : AdaptiveParams) (tf? : Option Rat) (hmm : p.minM ≤
       · exact ⟨fb, _, rfl, multiplierTF_bounds _ _ _ _ hmm⟩
       · exact h x hx
 
+-- non-vacuity: the hypotheses hold at a concrete instance
+example := runOps_outputs (⟨60, 9 / 10, 1, 5⟩ : AdaptiveParams) none (by norm_num)
+  [.record 0 false, .query 1, .call 2 (3 / 2)] [] [] (by simp)
+
 /-- `adaptive()` returns its fallback's value scaled by a factor within
 `[min_multiplier, max_multiplier]`. -/
 theorem adaptive_scaled (p : AdaptiveParams) (fb now : Rat) (ev : Events) (hv : p.valid = true) :
     ∃ m, (adaptiveCall p fb now ev).1 = fb * m ∧ p.minM ≤ m ∧ m ≤ p.maxM :=
   ⟨adaptiveMultiplier p ev now, rfl, adaptive_multiplier_bounds p ev now hv⟩
+
+-- non-vacuity: the hypotheses hold at a concrete instance
+example := adaptive_scaled (⟨60, 9 / 10, 1, 5⟩ : AdaptiveParams) (3 / 2) 3 [(0, false), (1, false), (2, true)]
+  ((valid_iff _).mpr (by norm_num) : (⟨60, 9 / 10, 1, 5⟩ : AdaptiveParams).valid = true)
 
 /-- … hence never below a non-negative fallback (and between `fb·min` and `fb·max`). -/
 theorem adaptive_ge_fallback (p : AdaptiveParams) (fb now : Rat) (ev : Events)
@@ -270,8 +300,9 @@ theorem adaptive_ge_fallback (p : AdaptiveParams) (fb now : Rat) (ev : Events)
     fb * adaptiveMultiplier p ev now ≤ fb * p.maxM
   refine ⟨?_, ?_, ?_⟩ <;> nlinarith
 
-example : (⟨60, 9 / 10, 1, 5⟩ : AdaptiveParams).valid = true ∧ (0 : Rat) ≤ 3 / 2 := by
-  exact ⟨(valid_iff _).mpr (by norm_num), by norm_num⟩
+-- non-vacuity: the hypotheses hold at a concrete instance
+example := adaptive_ge_fallback (⟨60, 9 / 10, 1, 5⟩ : AdaptiveParams) (3 / 2) 3 [(0, false), (1, false), (2, true)]
+  ((valid_iff _).mpr (by norm_num) : (⟨60, 9 / 10, 1, 5⟩ : AdaptiveParams).valid = true) (by norm_num)
 
 /-- Pruning only ever removes events (so the deque is always a sublist of what was recorded). -/
 theorem record_sublist (p : AdaptiveParams) (now : Rat) (s : Bool) (ev : Events) :
@@ -297,8 +328,6 @@ theorem retry_after_or_bounds (jitterS : Rat) (hint : Option FVal) (fb : FVal)
     cases remaining with
     | none => exact le_max_left _ _
     | some r => exact le_min (le_max_left _ _) (hr r rfl)
-
-example : ∀ r : Rat, some (2 : Rat) = some r → 0 ≤ r := by intro r h; cases h; norm_num
 
 /-- Without the side condition the claim is false: a negative `remaining_s` is returned as is. -/
 example : retryAfterOr (1 / 4) none (.fin 1) (some (-1)) 0 = -1 := by decide
@@ -328,11 +357,16 @@ theorem hint_value (jitterS h : Rat) (fb : FVal) (u : Rat) (hu0 : 0 ≤ u) :
     simp only [retryAfterOr, finiteOrZero]
     rw [key]
 
+-- non-vacuity: the hypotheses hold at a concrete instance
+example := hint_value (1 / 4) 2 .nan (1 / 2) (by norm_num)
+
 /--
 C20, last sentence.  For a finite hint `h` (a negative one counts as 0), a draw `u ∈ [0,1]` and
-a remaining deadline `r`: the delay is `min(h⁺ + jitter·u, r)`; it is at least the hinted time and
-at most the hint plus `jitter_s` whenever that fits into the remaining deadline, at least
-`min(h⁺, r)` always, and it is exactly the remaining deadline when even the bare hint does not fit.
+a remaining deadline `r`: the delay is `min(h⁺ + jitter·u, r)`; it never exceeds the hint plus
+`jitter_s` nor `r`; it is at least the hinted time whenever the hinted time itself fits into the
+remaining deadline (`h⁺ ≤ r`), and it is exactly the remaining deadline when it does not (`r ≤ h⁺`).
+(In between, `h⁺ ≤ r < h⁺ + jitter`, the delay is `min(h⁺ + jitter·u, r) ∈ [h⁺, r]` — it need not
+equal `r`.)
 -/
 theorem hint_honoured (jitterS h : Rat) (fb : FVal) (remaining : Option Rat) (u : Rat)
     (hu0 : 0 ≤ u) (hu1 : u ≤ 1) :
@@ -344,6 +378,7 @@ theorem hint_honoured (jitterS h : Rat) (fb : FVal) (remaining : Option Rat) (u 
       f = min (hint + jitter * u) r ∧
       (hint + jitter ≤ r → hint ≤ f ∧ f ≤ hint + jitter) ∧
       (min hint r ≤ f ∧ f ≤ min (hint + jitter) r) ∧
+      (hint ≤ r → hint ≤ f) ∧ f ≤ hint + jitter ∧ f ≤ r ∧
       (r ≤ hint → f = r)) := by
   intro f hint jitter
   have hj : 0 ≤ jitter := le_max_left _ _
@@ -363,16 +398,24 @@ theorem hint_honoured (jitterS h : Rat) (fb : FVal) (remaining : Option Rat) (u 
   · intro r hr
     subst hr
     have hf : f = min (hint + jitter * u) r := hv2 r
-    refine ⟨hf, ?_, ?_, ?_⟩
+    refine ⟨hf, ?_, ?_, ?_, ?_, ?_, ?_⟩
     · intro hfit
       rw [hf, min_eq_left (by linarith)]
       constructor <;> linarith
     · rw [hf]
       exact ⟨min_le_min_right _ (by linarith), min_le_min_right _ (by linarith)⟩
+    · intro hfit
+      rw [hf]
+      exact le_min (by linarith) hfit
+    · rw [hf]
+      exact le_trans (min_le_left _ _) (by linarith)
+    · rw [hf]
+      exact min_le_right _ _
     · intro hle
       rw [hf, min_eq_right (by linarith)]
 
-example : (0 : Rat) ≤ 1 / 2 ∧ (1 / 2 : Rat) ≤ 1 := by constructor <;> norm_num
+-- non-vacuity: the hypotheses hold at a concrete instance
+example := hint_honoured (1 / 4) 2 .nan (some 1) (1 / 2) (by norm_num) (by norm_num)
 
 /-- An absent or non-finite hint defers to the fallback (sanitised). -/
 theorem no_hint_defers (jitterS : Rat) (hint : Option FVal) (fb : FVal) (remaining : Option Rat)
@@ -389,6 +432,9 @@ theorem no_hint_defers (jitterS : Rat) (hint : Option FVal) (fb : FVal) (remaini
   | some .negInf, _ => rfl
   | some (.fin h), hh => exact absurd rfl (hh h)
 
+-- non-vacuity: the hypotheses hold at a concrete instance
+example := no_hint_defers (1 / 4) (some .posInf) (.fin 3) (some 2) 0 (by intro h; simp)
+
 /-- The runner's own `sanitize` (non-finite ↦ 0, `max 0`, `min remaining`) changes nothing on a
 value produced by `retry_after_or` for the same non-negative remaining deadline. -/
 theorem sanitize_idempotent_on_retry_after_or (jitterS : Rat) (hint : Option FVal) (fb : FVal)
@@ -401,7 +447,8 @@ theorem sanitize_idempotent_on_retry_after_or (jitterS : Rat) (hint : Option FVa
   simp only [sanitize, finiteOrZero]
   rw [max_eq_right h0, min_eq_left hle]
 
-example : (0 : Rat) ≤ 2 := by norm_num
+-- non-vacuity: the hypotheses hold at a concrete instance
+example := sanitize_idempotent_on_retry_after_or (1 / 4) (some (.fin 2)) .nan 1 (1 / 2) (by norm_num)
 
 /-- … and when `retry_after_or` was not told the deadline, the runner's `sanitize` imposes it. -/
 theorem sanitize_after_retry_after_or_none (jitterS : Rat) (hint : Option FVal) (fb : FVal)
@@ -423,6 +470,9 @@ theorem hint_honoured_after_sanitize (jitterS h : Rat) (fb : FVal) (r u : Rat)
   rw [sanitize_idempotent_on_retry_after_or _ _ _ _ _ hr]
   exact (hint_value jitterS h fb u hu0).2 r
 
+-- non-vacuity: the hypotheses hold at a concrete instance
+example := hint_honoured_after_sanitize (1 / 4) 2 .nan 1 (1 / 2) (by norm_num) (by norm_num)
+
 /-! ## the executable envelope predicates (what the driver evaluates on the implementation's
 return values) accept every value of the model, for every non-negative tolerance -/
 
@@ -435,6 +485,9 @@ theorem within_of_mem (lo hi rel eps v : Rat) (hrel : 0 ≤ rel) (heps : 0 ≤ e
   simp only [within, Bool.and_eq_true, decide_eq_true_eq]
   constructor <;> linarith
 
+-- non-vacuity: the hypotheses hold at a concrete instance
+example := within_of_mem 1 2 (1 / 1024) 0 (3 / 2) (by norm_num) (by norm_num) (by norm_num) (by norm_num)
+
 /-- With zero tolerance `within` *is* membership in `[lo, hi]`. -/
 theorem within_zero_iff (lo hi v : Rat) : within lo hi 0 0 v = true ↔ lo ≤ v ∧ v ≤ hi := by
   simp [within]
@@ -446,6 +499,10 @@ theorem decorrelatedEnv_model (base mx : Rat) (prev : Option Rat) (u rel eps : R
   obtain ⟨h1, h2, _, _⟩ := decorrelated_in_range base mx prev u hb hm hp hu0 hu1
   exact within_of_mem _ _ _ _ _ hrel heps h1 h2
 
+-- non-vacuity: the hypotheses hold at a concrete instance
+example := decorrelatedEnv_model (1 / 4) 30 none (1 / 2) (1 / 1024) 0 (by norm_num) (by norm_num) (by simp) (by norm_num) (by norm_num)
+  (by norm_num) (by norm_num)
+
 theorem capEnv_model (base mx : Rat) (attempt : Nat) (u rel eps : Rat)
     (hb : 0 ≤ base) (hm : base ≤ mx) (hu0 : 0 ≤ u) (hu1 : u ≤ 1) (hrel : 0 ≤ rel) (heps : 0 ≤ eps) :
     capEnv (cap base mx 2 attempt) rel eps (.fin (equalJitter base mx attempt u)) = true ∧
@@ -456,6 +513,9 @@ theorem capEnv_model (base mx : Rat) (attempt : Nat) (u rel eps : Rat)
     cap_eq_capSpec base mx (3 / 2) attempt hb (by norm_num)]
   exact ⟨within_of_mem _ _ _ _ _ hrel heps e1 e2, within_of_mem _ _ _ _ _ hrel heps t1 t2⟩
 
+-- non-vacuity: the hypotheses hold at a concrete instance
+example := capEnv_model (1 / 4) 30 7 (1 / 2) (1 / 1024) 0 (by norm_num) (by norm_num) (by norm_num) (by norm_num) (by norm_num) (by norm_num)
+
 theorem adaptiveEnv_model (p : AdaptiveParams) (fb now : Rat) (ev : Events) (rel eps : Rat)
     (hv : p.valid = true) (hfb : 0 ≤ fb) (hrel : 0 ≤ rel) (heps : 0 ≤ eps) :
     multiplierEnv p.minM p.maxM rel (.fin (adaptiveMultiplier p ev now)) = true ∧
@@ -465,6 +525,10 @@ theorem adaptiveEnv_model (p : AdaptiveParams) (fb now : Rat) (ev : Events) (rel
   exact ⟨within_of_mem _ _ _ _ _ hrel (le_refl _) m1 m2,
     within_of_mem _ _ _ _ _ hrel heps (max_le a1 a2) a3⟩
 
+-- non-vacuity: the hypotheses hold at a concrete instance
+example := adaptiveEnv_model (⟨60, 9 / 10, 1, 5⟩ : AdaptiveParams) (3 / 2) 3 [(0, false), (1, false), (2, true)] (1 / 1024) 0
+  ((valid_iff _).mpr (by norm_num) : (⟨60, 9 / 10, 1, 5⟩ : AdaptiveParams).valid = true) (by norm_num) (by norm_num) (by norm_num)
+
 theorem retryAfterOrEnv_model (jitterS : Rat) (hint : Option FVal) (fb : FVal)
     (remaining : Option Rat) (u : Rat) (hr : ∀ r, remaining = some r → 0 ≤ r) :
     retryAfterOrEnv remaining (.fin (retryAfterOr jitterS hint fb remaining u)) = true := by
@@ -472,6 +536,10 @@ theorem retryAfterOrEnv_model (jitterS : Rat) (hint : Option FVal) (fb : FVal)
   cases remaining with
   | none => simpa [retryAfterOrEnv] using h2 hr
   | some r => simpa [retryAfterOrEnv] using And.intro (h2 hr) (h1 r rfl)
+
+-- non-vacuity: the hypotheses hold at a concrete instance
+example := retryAfterOrEnv_model (1 / 4) (some .nan) .negInf (some 2) 1
+  (by intro r h; cases h; norm_num)
 
 theorem hintEnv_model (jitterS h : Rat) (fb : FVal) (remaining : Option Rat) (u rel eps : Rat)
     (hu0 : 0 ≤ u) (hu1 : u ≤ 1) (hrel : 0 ≤ rel) (heps : 0 ≤ eps) :
@@ -485,6 +553,9 @@ theorem hintEnv_model (jitterS h : Rat) (fb : FVal) (remaining : Option Rat) (u 
   | some r =>
     obtain ⟨_, _, ⟨a, b⟩, _⟩ := hs r rfl
     exact within_of_mem _ _ _ _ _ hrel heps a b
+
+-- non-vacuity: the hypotheses hold at a concrete instance
+example := hintEnv_model (1 / 4) 2 .nan (some 1) (1 / 2) (1 / 1024) 0 (by norm_num) (by norm_num) (by norm_num) (by norm_num)
 
 /-! ## tie to the loop model -/
 
